@@ -530,7 +530,7 @@ void* dyn_array_get_struct(DynArray* arr, int64_t index) {
     if (index < 0 || index >= arr->length) {
         fprintf(stderr, "DynArray: Index out of bounds: %lld (length: %lld)\n", 
                 (long long)index, (long long)arr->length);
-        return NULL;
+        abort();  /* same outcome as the assert() in the scalar accessors: never hand back a value */
     }
     
     /* Return pointer to struct in array */
@@ -547,7 +547,7 @@ void dyn_array_set_struct(DynArray* arr, int64_t index, const void* struct_ptr, 
     if (index < 0 || index >= arr->length) {
         fprintf(stderr, "DynArray: Index out of bounds: %lld (length: %lld)\n", 
                 (long long)index, (long long)arr->length);
-        return;
+        abort();  /* same outcome as the assert() in the scalar accessors: never drop the write silently */
     }
     
     /* Copy struct into array */
